@@ -401,6 +401,10 @@ def check_c02(prog, rep, tier, cfg):
     import lexer_rules as _lx
     from engine import AliasReport as _Alias
     _lx.check_c13(prog, _Alias(rep, [("C13.b", r".", "C02.k")]), tier, cfg)
+    # C02.l — the value of a multi-line literal: its interior lines are cut exactly where the lexer's terminators are (CR, LF, CRLF as one),
+    # otherwise two lines are re-indented as one and the second keeps its old indentation (shared with C12.e)
+    import strings as _strings
+    _strings.check_c12(prog, _Alias(rep, [("C12.e", r".", "C02.l")]), tier, cfg)
     # ---------------------------------------------------------------- C02.i who may change a token's kind, and which tokens
     R = "C02.i"
     writers = {}
